@@ -28,15 +28,17 @@ fn script_of(id: u64) -> Script {
 
 pub struct World {
     pub chain: SimChain,
-    /// script id -> block numbers whose transactions touch it (output locked by it, or input
-    /// spending such an output)
-    pub touches: BTreeMap<u64, BTreeSet<u64>>,
+    /// script id -> (block, creating block) of the activity touching it: an output locked by it
+    /// (creating block = the block itself) or an input spending such an output.  An input is
+    /// attributable by the index only if the creating block is indexed too (above the script's
+    /// start number): the spends of older cells are the structural limit recorded under C03.
+    pub touches: BTreeMap<u64, BTreeSet<(u64, u64)>>,
 }
 
 pub fn build_world(rng: &mut Rng, n_blocks: u64) -> World {
     let mut chain = SimChain::new_dummy();
-    let mut touches: BTreeMap<u64, BTreeSet<u64>> = BTreeMap::new();
-    let mut live: Vec<(Byte32, u32, u64)> = Vec::new(); // (tx hash, idx, script id)
+    let mut touches: BTreeMap<u64, BTreeSet<(u64, u64)>> = BTreeMap::new();
+    let mut live: Vec<(Byte32, u32, u64, u64)> = Vec::new(); // (tx hash, idx, script id, block)
     for b in 1..=n_blocks {
         let mut txs: Vec<TransactionView> = Vec::new();
         let n_tx = if rng.chance(1, 3) { rng.range(1, 2) } else { 0 };
@@ -44,15 +46,15 @@ pub fn build_world(rng: &mut Rng, n_blocks: u64) -> World {
             let mut inputs = Vec::new();
             if !live.is_empty() && rng.chance(1, 2) {
                 let i = rng.below(live.len() as u64) as usize;
-                let (h, idx, sid) = live.remove(i);
+                let (h, idx, sid, created) = live.remove(i);
                 inputs.push((h, idx));
-                touches.entry(sid).or_default().insert(b);
+                touches.entry(sid).or_default().insert((b, created));
             }
             let sid = rng.range(1, N_SCRIPTS);
             let outputs = vec![(script_of(sid), None, 100_0000_0000u64 + b, vec![])];
             let t = tx(&inputs, &outputs, b * 10 + k);
-            live.push((t.hash(), 0, sid));
-            touches.entry(sid).or_default().insert(b);
+            live.push((t.hash(), 0, sid, b));
+            touches.entry(sid).or_default().insert((b, b));
             txs.push(t);
         }
         chain.append_with_txs(txs);
@@ -180,6 +182,13 @@ pub struct RunOut {
     /// registration numbers: script id -> the number the user last gave / the number recorded
     /// when a command kept the script
     pub reg: BTreeMap<u64, u64>,
+    /// for a crash inside `set_scripts`: the registration the interrupted command asked for
+    pub reg_pending: Option<BTreeMap<u64, u64>>,
+    /// what was going on at the crash: `<activity> @ <write site>`
+    pub crash_ctx: String,
+    /// for every model op line: (index in `lines`, global index of its first write, one past
+    /// its last write)
+    pub spans: Vec<(usize, u64, u64)>,
 }
 
 /// the model op for a message the client just handled, from what it did to the store
@@ -237,11 +246,23 @@ pub(crate) fn run_steps(
     let mut reg: BTreeMap<u64, u64> = BTreeMap::new();
     // the write counter / crash trigger
     let counter = std::rc::Rc::new(std::cell::Cell::new(0u64));
+    let crash_site = std::rc::Rc::new(std::cell::RefCell::new(String::new()));
+    let mut activity = String::new();
+    let mut reg_pending = None;
+    let mut spans: Vec<(usize, u64, u64)> = Vec::new();
+    // the sites of the completed writes, in order
+    let sites = std::rc::Rc::new(std::cell::RefCell::new(Vec::<String>::new()));
     {
         let c = counter.clone();
-        crate::verif_hooks::set_before_write(Some(Box::new(move |_site| {
+        let cs = crash_site.clone();
+        let log = sites.clone();
+        crate::verif_hooks::set_before_write(Some(Box::new(move |site| {
             c.set(c.get() + 1);
+            if Some(c.get()) != crash_at {
+                log.borrow_mut().push(site.to_string());
+            }
             if Some(c.get()) == crash_at {
+                *cs.borrow_mut() = site.to_string();
                 panic!("simulated crash at store write {}", c.get());
             }
         })));
@@ -267,48 +288,55 @@ pub(crate) fn run_steps(
                     _ => SetScriptsCommand::Delete,
                 };
                 let rpc = node.filter_rpc();
+                activity = format!("set_scripts({})", cmd);
+                let w0 = sites.borrow().len();
                 let r = catch(|| rpc.set_scripts(statuses, Some(command)));
                 drop(rpc);
                 let body: Vec<String> = list.iter().map(|(i, n)| format!("{} {}", i, n)).collect();
+                let mut reg_new = reg.clone();
+                match cmd {
+                    0 => {
+                        reg_new.clear();
+                        for (i, n) in list {
+                            reg_new.insert(*i, *n);
+                        }
+                    }
+                    1 => {
+                        if !list.is_empty() {
+                            for (i, n) in &before.scripts {
+                                reg_new.entry(*i).or_insert(*n);
+                            }
+                            for (i, n) in list {
+                                reg_new.insert(*i, *n);
+                            }
+                        }
+                    }
+                    _ => {
+                        for (i, _) in list {
+                            reg_new.remove(i);
+                        }
+                    }
+                }
                 if r.is_err() {
+                    reg_pending = Some(reg_new);
                     crashed = true;
                     lines.push(format!("set {} | {} @ CRASH", cmd, body.join(" ")));
                     impls.push(String::new());
                     break 'outer;
                 }
                 lines.push(format!("set {} | {}", cmd, body.join(" ")));
-                impls.push(String::new()); // write count is not compared, the dump is
+                impls.push(format!("writes {}", sites.borrow()[w0..].join(" ")));
+                spans.push((lines.len() - 1, w0 as u64, sites.borrow().len() as u64));
                 lines.push("dump".into());
                 impls.push(show_obs(&observe(&node, chain)));
                 // registration bookkeeping for the oracle
-                match cmd {
-                    0 => {
-                        reg.clear();
-                        for (i, n) in list {
-                            reg.insert(*i, *n);
-                        }
-                    }
-                    1 => {
-                        if !list.is_empty() {
-                            for (i, n) in &before.scripts {
-                                reg.entry(*i).or_insert(*n);
-                            }
-                            for (i, n) in list {
-                                reg.insert(*i, *n);
-                            }
-                        }
-                    }
-                    _ => {
-                        for (i, _) in list {
-                            reg.remove(i);
-                        }
-                    }
-                }
+                reg = reg_new;
                 rep.count_op("set_scripts");
             }
             Step::Run(n) => {
                 *now += 3000;
                 set_now(*now);
+                activity = "timers".to_string();
                 if catch(|| node.tick_all()).is_err() {
                     crashed = true;
                     break 'outer;
@@ -336,6 +364,8 @@ pub(crate) fn run_steps(
                             let before = observe(&node, chain);
                             let volatile_empty =
                                 node.i().peers.matched_blocks().read().unwrap().is_empty();
+                            activity = format!("{}({})", kind, start);
+                            let w0 = sites.borrow().len();
                             if catch(|| node.deliver(p, rp, bytes)).is_err() {
                                 crashed = true;
                                 break 'outer;
@@ -343,7 +373,8 @@ pub(crate) fn run_steps(
                             let after = observe(&node, chain);
                             if let Some(op) = model_op_after(&before, &after, &kind, start, volatile_empty) {
                                 lines.push(op);
-                                impls.push(String::new());
+                                impls.push(format!("writes {}", sites.borrow()[w0..].join(" ")));
+                                spans.push((lines.len() - 1, w0 as u64, sites.borrow().len() as u64));
                                 lines.push("dump".into());
                                 impls.push(show_obs(&after));
                                 rep.count_op(&kind);
@@ -360,7 +391,12 @@ pub(crate) fn run_steps(
             let idx = indexed_blocks(&node, *sid);
             let pending: BTreeSet<u64> = o.records.iter().flat_map(|r| r.2.iter().cloned()).collect();
             if let Some(t) = world.touches.get(sid) {
-                for b in t.iter().filter(|b| **b > start && **b <= *n_s && **b <= chain.tip_number()) {
+                let attributable: BTreeSet<u64> = t
+                    .iter()
+                    .filter(|(_, created)| *created > start)
+                    .map(|(b, _)| *b)
+                    .collect();
+                for b in attributable.iter().filter(|b| **b > start && **b <= *n_s && **b <= chain.tip_number()) {
                     if !idx.contains(b) && !pending.contains(b) {
                         rep.violate(
                             "C09|overclaim",
@@ -383,6 +419,9 @@ pub(crate) fn run_steps(
             crashed,
             writes_seen,
             reg,
+            reg_pending,
+            crash_ctx: format!("{} @ {}", activity, crash_site.borrow()),
+            spans,
         },
     )
 }
@@ -410,12 +449,42 @@ pub(crate) fn converge(node: &mut Node, world: &World, now: &mut u64) -> BTreeMa
     let chain = &world.chain;
     let opts = ServerOpts::default();
     let peer = PeerIndex::new(1);
-    if node.i().peers.get_state(&peer).is_none() {
-        node.connect(peer);
+    // a request lost in a bounded round makes the client drop the peer after the message
+    // timeout; the network layer would dial again, so does the harness.  The honest chain
+    // keeps growing meanwhile (blocks without activity): a client cannot prove a peer whose
+    // tip is exactly its stored tip.
+    let mut grown = chain.fork(chain.tip_number(), 7);
+    for _ in 0..8 {
+        grown.append_simple(1);
+        let chain_of = |_p: PeerIndex| Some(&grown);
+        if node.i().peers.get_state(&peer).is_none() {
+            node.connect(peer);
+        }
+        node.run_to_quiescence(&chain_of, &opts, now, 3000, 400);
+        if std::env::var("VERIF_DEBUG_SYNC").is_ok() {
+            eprintln!("  round: requests {:?} state {}", node.requests, node.i().peers.get_state(&peer).is_some());
+        }
+        let quiet = node.i().peers.get_state(&peer).is_some()
+            && node.i().peers.matched_blocks().read().unwrap().is_empty()
+            && node.i().storage.get_earliest_matched_blocks().is_none();
+        if quiet {
+            break;
+        }
+        // let every message / download timeout of the client expire
+        *now += 120_000;
+        set_now(*now);
     }
-    let chain_of = |_p: PeerIndex| Some(chain);
-    // the filter protocol asks again only after its (wall clock) timeout; a fresh object asks at once
-    node.run_to_quiescence(&chain_of, &opts, now, 3000, 400);
+    if std::env::var("VERIF_DEBUG_SYNC").is_ok() {
+        eprintln!(
+            "converge: requests {:?} bans {:?} server_errors {:?} state {} volatile {} record {:?}",
+            node.requests,
+            node.bans,
+            node.server_errors,
+            node.i().peers.get_state(&peer).is_some(),
+            node.i().peers.matched_blocks().read().unwrap().len(),
+            node.i().storage.get_earliest_matched_blocks().map(|r| (r.0, r.1, r.2.len()))
+        );
+    }
     let mut out = BTreeMap::new();
     for sid in 1..=N_SCRIPTS {
         out.insert(sid, indexed_blocks(node, sid));
@@ -431,7 +500,7 @@ fn expected_index(world: &World, reg: &BTreeMap<u64, u64>, scripts: &BTreeMap<u6
         let set: BTreeSet<u64> = world
             .touches
             .get(sid)
-            .map(|t| t.iter().filter(|b| **b > start).cloned().collect())
+            .map(|t| t.iter().filter(|(b, created)| *b > start && *created > start).map(|(b, _)| *b).collect())
             .unwrap_or_default();
         out.insert(*sid, set);
     }
@@ -574,6 +643,38 @@ pub fn run(opts: &Options, prop: &str) -> Report {
                     );
                     continue;
                 }
+                // ---- the store after the crash = the model after the same prefix of writes
+                {
+                    let done = k - 1; // completed writes
+                    let mut trace: Vec<String> = Vec::new();
+                    let hit = out.spans.iter().find(|(_, a, b)| *a <= done && done < *b);
+                    match hit {
+                        Some((li, a, _)) => {
+                            trace.extend(out.lines[..*li].iter().cloned());
+                            trace.push(format!("{} @ {}", out.lines[*li], done - a));
+                        }
+                        None => {
+                            // the interrupted write belongs to no modelled operation: everything
+                            // completed before it counts
+                            let upto = out
+                                .spans
+                                .iter()
+                                .filter(|(_, _, b)| *b <= done)
+                                .map(|(li, _, _)| *li + 1)
+                                .max()
+                                .unwrap_or(1);
+                            trace.extend(out.lines[..upto].iter().cloned());
+                        }
+                    }
+                    trace.push("dump".into());
+                    let n = trace.len();
+                    for (i, l) in trace.into_iter().enumerate() {
+                        all_lines.push(l);
+                        all_impls.push(if i + 1 == n { show_obs(&observe(&node, &world.chain)) } else { String::new() });
+                        owner.push(hi);
+                    }
+                    rep.count_op("crash-state");
+                }
                 let conv = catch(|| converge(&mut node, &world, &mut now));
                 let got = match conv {
                     Ok(g) => g,
@@ -587,18 +688,26 @@ pub fn run(opts: &Options, prop: &str) -> Report {
                     }
                 };
                 let obs = observe(&node, &world.chain);
-                let expect = expected_index(&world, &cout.reg, &obs.scripts);
+                // an interrupted set_scripts call did not return: either registration is fine, a
+                // script is then owed its activity above the larger of its two start numbers
+                let mut reg = cout.reg.clone();
+                if let Some(pending) = &cout.reg_pending {
+                    for (sid, n) in pending {
+                        let e = reg.entry(*sid).or_insert(*n);
+                        *e = (*e).max(*n);
+                    }
+                }
+                let expect = expected_index(&world, &reg, &obs.scripts);
+                let act = cout.crash_ctx.split('(').next().unwrap_or("").to_string();
+                let site = cout.crash_ctx.split(" @ ").nth(1).unwrap_or("").to_string();
                 for (sid, exp) in &expect {
                     let g = got.get(sid).cloned().unwrap_or_default();
                     let missing: Vec<u64> = exp.difference(&g).cloned().collect();
                     if !missing.is_empty() {
-                        // which operation was interrupted
-                        let op = cout.lines.iter().rev().find(|l| !l.starts_with("dump")).cloned().unwrap_or_default();
-                        let opk = op.split(' ').next().unwrap_or("").to_string();
                         rep.violate(
-                            &format!("C08|activity-lost|crash-in-{}", if cout.lines.last().map(|l| l.contains("CRASH")).unwrap_or(false) { "set_scripts".to_string() } else { format!("after-{}", opk) }),
+                            &format!("C08|activity-lost|crash-in-{}-at-{}", act, site),
                             "a crash at a store write makes a registered script lose activity for good",
-                            replay(format!("# crash at store write {} of {}; script {} from {}: missing blocks {:?}; steps {:?}", k, total, sid, cout.reg.get(sid).unwrap_or(&0), missing, steps)),
+                            replay(format!("# crash at store write {} of {} ({}); script {} from {}: missing blocks {:?}; steps {:?}", k, total, cout.crash_ctx, sid, reg.get(sid).unwrap_or(&0), missing, steps)),
                         );
                     }
                 }
